@@ -116,7 +116,9 @@ class Interval(NominalValueMixin):
             return self._lo.shape[0]
 
     def __iter__(self):  # https://realpython.com/introduction-to-python-generators/
-        lo_iter, hi_iter = numpy.nditer(self.lo), numpy.nditer(self.hi)
+        # order="C": walk the elements in index order; the default (memory order) reverses the components of a
+        # negative-stride view such as Interval(lo=M[::-1, 0], hi=M[::-1, 1])
+        lo_iter, hi_iter = numpy.nditer(self.lo, order="C"), numpy.nditer(self.hi, order="C")
         while True:
             try:
                 yield Interval(lo=next(lo_iter), hi=next(hi_iter))
